@@ -322,7 +322,27 @@ func (p *Path) selectOp(fr *Frame, x *ssa.Select) Value {
 			}
 			p.quiescent("nothing can happen any more")
 		}
-		c := p.choose(len(ready)+ntasks+idleOpt, "select")
+		// a caller of the component (verif_EnvCaller) sending on a BUFFERED channel returns as soon
+		// as the value is queued: the send is an event of its own, the receive happens later
+		var pushable []*ChanObj
+		if e.inTask == 0 {
+			for _, s := range states {
+				if ch := s.ch; !s.send && ch != nil && ch.envPush && ch.cap > 0 && ch.envGen != nil && ch.envCount < ch.envLimit && len(ch.buf) < ch.cap {
+					pushable = append(pushable, ch)
+				}
+			}
+		}
+		c := p.choose(len(ready)+ntasks+idleOpt+len(pushable), "select")
+		if c >= len(ready)+ntasks+idleOpt {
+			ch := pushable[c-len(ready)-ntasks-idleOpt]
+			ch.envCount++
+			v := p.callValue(ch.envGen, nil, nil, nil)
+			if iv, ok := v.(IfaceV); ok && !types.IsInterface(ch.et) {
+				v = iv.v
+			}
+			ch.buf = append(ch.buf, v)
+			continue
+		}
 		if c >= len(ready)+ntasks {
 			p.quiescent("environment stays silent")
 		}
@@ -470,6 +490,18 @@ func init() {
 			return mkInt64(0)
 		}
 		return mkInt64(int64(len(cv.ch.sent)))
+	})
+	reg("verif_EnvCaller", func(p *Path, fn *ssa.Function, a []Value) Value {
+		cv, ok := a[0].(IfaceV).v.(ChanV)
+		if !ok || cv.ch == nil {
+			p.unsup("verif_EnvCaller on %T", a[0].(IfaceV).v)
+		}
+		cv.ch.envPush = true
+		return nil
+	})
+	reg("verif_DropTasks", func(p *Path, fn *ssa.Function, a []Value) Value {
+		p.envst().tasks = nil
+		return nil
 	})
 	reg("verif_PendingTasks", func(p *Path, fn *ssa.Function, a []Value) Value {
 		return mkInt64(int64(len(p.envst().tasks)))
